@@ -38,7 +38,7 @@ NOTES = {
  "S2-C13-outputs-merge-reads-inputs-flag": ("transparent Bundle::merge reads inputs_modifiable for the outputs rule", "copies whose inputs/outputs modifiable flags differ (non-ALL sighash types) and a copy with more outputs, in one order", "yes: the combine generator only produced structurally identical copies with equal flags; Constructor-extended copies and all sighash types were added"),
  "S2-C15-queue-rescans-unsorted-span": ("queue_rescans computes its query span with max(span.start, r.end)", "several rescan ranges not in ascending order, an earlier one crossing a queue row boundary", "yes: the wallet histories never called queue_rescans; a Rescan operation (1-4 ranges, any order, every priority) with the forced dominance rule asserted pointwise was added"),
  "S2-C16-exact-funding-above-cap": ("single-note exact-funding guard loses its upper bound", "the whole balance in one note worth exactly a 1-2-5 value above 10000 ZEC plus the transfer buffer", "no"),
- "S2-C08-shielding-input-height-min": ("select_spendable_notes_matching_value takes MIN instead of MAX of the shielding inputs' mined heights", "a note created by a shielding transaction with >= 2 transparent inputs mined at different heights, and a value-targeted proposal inside the confirmation window of the newest input", "missed as built: executed transactions are never mined by the model, so no shielding-output note ever exists (extension in progress, see DESIGN 10.3)"),
+ "S2-C08-shielding-input-height-min": ("select_spendable_notes_matching_value takes MIN instead of MAX of the shielding inputs' mined heights", "a note created by a shielding transaction with >= 2 transparent inputs mined at different heights, and a value-targeted proposal inside the confirmation window of the newest input", "yes: executed transactions were never mined by the model, so no shielding-output note existed; Chain::add_block_with_tx + MineExecuted/Cycle ops + the documented confirmation rule for shielding outputs were added"),
  "S2-C09-mul-u64-narrowed-before-range-check": ("Zatoshis * u64 computed in u128 and narrowed with `as u64` before the range check", "exact product >= 2^64 whose low 64 bits are <= MAX_MONEY", "no"),
  "S2-C10-p2sh-regtest-network-exception": ("convert_if_network guards the P2SH arm with network_matches instead of the regtest exception", "a bare P2SH address converted for the regtest network", "no"),
  "S2-C14-orchard-change-outputs-not-counted": ("orchard_action_count stops counting change outputs in bundles that permit cross-address transfers", "Orchard at NU5..NU6.2 with outputs added through add_orchard_change_output exceeding max(spends, outputs, padding)", "no"),
